@@ -156,8 +156,16 @@ func (c *controller) convergeBalancer(l log.Logger, key string, svc *v1.Service)
 		}
 	}
 
+	// A PreferDualStack service gets the second family only if the cluster gave it cluster IPs of both
+	// families: with cluster IPs of one family the next sync would see a family change, clear the
+	// service, allocate one address, add the second again, and so on forever.
+	dualStackClusterIPs := false
+	if f, err := ipfamily.ForService(svc); err == nil && f == ipfamily.DualStack {
+		dualStackClusterIPs = true
+	}
+
 	// If svc currently has 1 ip and policy PreferDualStack, try assigning ip from the missing family and same pool
-	if len(lbIPs) == 1 && familyPolicy == v1.IPFamilyPolicyPreferDualStack {
+	if len(lbIPs) == 1 && familyPolicy == v1.IPFamilyPolicyPreferDualStack && dualStackClusterIPs {
 		level.Info(l).Log("event", "tryAssignAdditionalIP", "msg", "familyPolicy is PreferDualStack, trying to assign additional ip")
 		currentPool := c.ips.Pool(key)
 		// Try assigning a new ip with the missing stack and from the same pool.
